@@ -116,6 +116,9 @@ Proof.
     destruct auth as [c|]; [|reflexivity]. destruct (clients s c) as [cl|]; [|reflexivity].
     destruct (negb (args_has (cl_grants cl) _)); [reflexivity|].
     destruct (key_of s dev) as [k0|]; [|reflexivity].
+    destruct (used_device cfg (st s) k0) as [rid|].
+    { cbn. destruct (revoke_refresh_tables (revoke_access (st s) rid) rid) as [_ [_ [_ [_ Tp]]]].
+      destruct (revoke_access_tables (st s) rid) as [_ [_ [_ [_ Tp']]]]. now rewrite Tp, Tp'. }
     destruct (device (st s) k0) as [[stt r]|] eqn:Ed; [|reflexivity].
     repeat match goal with |- context [if ?c then fail s _ else _] => destruct c; [reflexivity|] end.
     match goal with |- context [grant_tokens ?s2 ?stored ?w] =>
